@@ -19,6 +19,12 @@ structure Ctx where
   key : Ident
   out : Option Reply := none
 
+/-- `has(prefix, number)` as the source writes it (used by the constructor guard) -/
+def runPrimsHas (x : Ctx) : Ctx :=
+  match Gen.hasOps with
+  | [.tableContains] => { x with out := some (.got ((lookup x.key x.s.ids).map fun _ => 0)) }
+  | _ => x
+
 def prim (x : Ctx) : Prim → Ctx
   | .assertDelay =>
     if (x.s.caches x.c).delay ≤ Gen.minDelayExclusiveMs then { x with out := some .assertFail } else x
@@ -55,6 +61,12 @@ def prim (x : Ctx) : Prim → Ctx
   | .cancelRegisteredFutures =>
     { x with s := { x.s with caches := fun i => if hasVal i x.s.ids then (x.s.caches i).cancelFuts else x.s.caches i } }
   | .awaitTasks => { x with out := some .done }
+  | .tableContains => { x with out := some (.got ((lookup x.key x.s.ids).map fun _ => 0)) }   -- only its truth value is used
+  | .tableLookup => { x with out := some (.got (lookup x.key x.s.ids)) }
+  | .raiseIfHas =>                           -- `if request_cache.has(prefix, number): raise RuntimeError`
+    match (runPrimsHas x).out with
+    | some (.got (some _)) => { x with out := some .inUse }
+    | _ => x
   | .superShutdown =>                         -- TaskManager.shutdown_task_manager: early return when already shut down
     if x.s.shutdown then { x with out := some .done }
     else { x with s := { x.s with shutdown := true, runReg := false,
@@ -106,6 +118,19 @@ def fireAbortViaSource (s : St) : St × Reply :=
     let x := runPrims Gen.onTimeoutAbortOps { s := s, c := c, key := (s.caches c).ident }
     ({ x.s with running := none, runReg := false }, .aborted c)
 
+/-- `RequestCache.get(prefix, number)` as written in the source -/
+def getViaSource (s : St) (p num : Nat) : St × Reply :=
+  result (runPrims Gen.getOps { s := s, c := 0, key := (p, num) })
+
+/-- `NumberCache(request_cache, prefix, number)`: the guard of the source, then the object is created -/
+def mkViaSource (s : St) (p num : Nat) (delay : Option Nat) (cls : Nat) (kinds : List Bool) : St × Reply :=
+  match (runPrims Gen.ctorOps { s := s, c := s.n, key := (p, num) }).out with
+  | some r => (s, r)
+  | none =>
+    let ch : Cache := { pfx := p, num := num, delay := delay.getD Gen.defaultDelayMs, cls := cls,
+                        futs := kinds.map (fun k => { isExc := k, st := .pending }), task := none }
+    ({ s with caches := upd s.caches s.n ch, n := s.n + 1 }, .okMk s.n num)
+
 def clearViaSource (s : St) : St × Reply :=
   result (runPrims Gen.clearOps { s := s, c := 0, key := (0, 0) })
 
@@ -116,5 +141,26 @@ def tmShutdownViaSource (s : St) : St × Reply :=
 def shutdownViaSource (s : St) : St × Reply :=
   if s.running.isSome then (s, .refused)
   else result (runPrims Gen.shutdownOps { s := s, c := 0, key := (0, 0) })
+
+/-- the request-cache machine with every translated method executed from the GENERATED op lists -/
+def stepSrc (s : St) : Ev → St × Reply
+  | .mk p n d cls ks => mkViaSource s p n d cls ks
+  | .add c => addViaSource s c
+  | .pop p n => popViaSource s p n
+  | .get p n => getViaSource s p n
+  | .fireBegin c => fireBeginViaSource s c
+  | .fireEnd => fireEndViaSource s
+  | .fireAbort => fireAbortViaSource s
+  | .clear => clearViaSource s
+  | .shutdown => shutdownViaSource s
+  | .tmShutdown => tmShutdownViaSource s
+  | e => step s e
+
+def runSrc (s : St) : List Ev → St × List Reply
+  | [] => (s, [])
+  | e :: es =>
+    let r := stepSrc s e
+    let rest := runSrc r.1 es
+    (rest.1, r.2 :: rest.2)
 
 end Ipv8.C10
